@@ -645,8 +645,8 @@ func (s *Session) routingKeyInfo(ctx context.Context, stmt string) (*routingKeyI
 	// TODO: it would be nice to mark hosts here but as we are not using the policies
 	// to fetch hosts we cant
 
-	if info.request.colCount == 0 {
-		// no arguments, no routing key, and no error
+	if info.request.colCount == 0 || len(info.request.columns) < info.request.colCount {
+		// no arguments (or no description of them), no routing key, and no error
 		return nil, nil
 	}
 
